@@ -1152,6 +1152,11 @@ fn oracle_case(case: &Case, obs: &[&str], ids: &[&str], st: &mut OracleStats, ca
                         continue;
                     }
                 }
+                // an `acc` request evaluates the function just like a `get`: it counts as the
+                // first successful evaluation of the history (what later revisions are compared with)
+                if main.starts_with("acc=") && first_value_rev.is_none() {
+                    first_value_rev = Some(rev_no);
+                }
                 let env = Env { prog: &case.prog, inputs: &inputs, cells: &cells };
                 let v = Ref::new(env).accumulated(*q);
                 let want = format!("acc={}", if v.is_empty() { "-".to_string() } else { v.iter().map(|x| x.to_string()).collect::<Vec<_>>().join(",") });
@@ -1161,6 +1166,21 @@ fn oracle_case(case: &Case, obs: &[&str], ids: &[&str], st: &mut OracleStats, ca
                 if main != want {
                     if main.starts_with("panic:") {
                         fail(st, i, format!("key=unexpected-panic-{} got `{}` want `{}`", panic_slug(main), main, want));
+                    } else if has_late_mk && first_value_rev.is_some_and(|r| r < rev_no) && {
+                        // same recognition of known finding C10/kf3 as for `get` (the stale reader of
+                        // the specifiable function keeps its old pushes too)
+                        let mut untracked_body = spec_body_untracked;
+                        for c in 0..nn {
+                            let rv = Ref::new(Env { prog: &case.prog, inputs: &inputs, cells: &cells }).node(c);
+                            if let Some(t) = &rv.ts {
+                                if Ref::new(Env { prog: &case.prog, inputs: &inputs, cells: &cells }).spec_reads(t).iter().all(|r| durs[*r] == 3) {
+                                    untracked_body = true;
+                                }
+                            }
+                        }
+                        untracked_body
+                    } {
+                        fail(st, i, format!("key=specify-over-never-change-computed got `{}` want `{}`", main, want));
                     } else {
                         fail(st, i, format!("key=accumulated got `{}` want `{}`", main, want));
                     }
